@@ -459,6 +459,110 @@ def r_format(text, log):
     return apply_edits(text, edits)
 
 
+def match_open(toks, k):
+    """toks[k] is a closing bracket; index of the matching opener"""
+    depth = 0
+    for j in range(k, -1, -1):
+        t = toks[j]
+        if t.kind != "punct":
+            continue
+        if t.text in CLOSE:
+            depth += 1
+        elif t.text in OPEN:
+            depth -= 1
+            if depth == 0:
+                return j
+    raise LexError("unbalanced bracket")
+
+
+def chain_start(toks, sg, p):
+    """sg[p] is the `.` before a method name; return the sg index where the receiver expression starts
+    (postfix chain of identifiers, field accesses, calls, index expressions, `?`)"""
+    q = p - 1
+    while q >= 0:
+        t = toks[sg[q]]
+        if t.text in (")", "]"):
+            o = match_open(toks, sg[q])
+            q = sg.index(o)
+            # a call: the callee name / path precedes the '('
+            if q - 1 >= 0 and toks[sg[q - 1]].kind == "ident" and toks[sg[q - 1]].text not in ("if", "while", "match", "return", "in", "let", "else"):
+                q -= 1
+            else:
+                return q
+        elif t.kind in ("ident", "num", "str", "char"):
+            if t.text in ("if", "while", "match", "return", "in", "let", "else", "mut"):
+                return q + 1
+        elif t.text == "?":
+            q -= 1
+            continue
+        else:
+            return q + 1
+        # what precedes this atom?
+        if q - 1 >= 0 and toks[sg[q - 1]].text in (".", "::"):
+            q -= 2
+            continue
+        if q - 1 >= 0 and toks[sg[q - 1]].text in ("&", "*") and False:
+            q -= 1
+        return q
+    return 0
+
+
+def r_split(text, log):
+    """R7: `X.split('/').collect()` -> `split_slash(X)`;  R7b: `X.split('/')` (iterator) -> `slash_split(X)`"""
+    n7 = n7b = 0
+    while True:
+        toks = lex(text)
+        sg = sig(toks)
+        hit = None
+        for p in range(len(sg) - 4):
+            if (toks[sg[p]].text == "." and toks[sg[p + 1]].text == "split" and toks[sg[p + 2]].text == "("
+                    and toks[sg[p + 3]].text == "'/'" and toks[sg[p + 4]].text == ")"):
+                hit = p
+                break
+        if hit is None:
+            break
+        p = hit
+        st = chain_start(toks, sg, p)
+        recv = text[toks[sg[st]].s:toks[sg[p - 1]].e]
+        end = toks[sg[p + 4]].e
+        if (p + 8 < len(sg) and toks[sg[p + 5]].text == "." and toks[sg[p + 6]].text == "collect"
+                and toks[sg[p + 7]].text == "(" and toks[sg[p + 8]].text == ")"):
+            end = toks[sg[p + 8]].e
+            text = text[:toks[sg[st]].s] + f"split_slash({recv})" + text[end:]
+            n7 += 1
+        else:
+            text = text[:toks[sg[st]].s] + f"slash_split({recv})" + text[end:]
+            n7b += 1
+    bump(log, "R7 X.split('/').collect() -> split_slash(X)", n7)
+    bump(log, "R7b X.split('/') -> slash_split(X) (prelude iterator)", n7b)
+    return text
+
+
+def r_iter_any(text, log):
+    """R14: `X.iter().any(C)` -> `iter_any(X, C)` (prelude function specified through the closure's contract)"""
+    n = 0
+    while True:
+        toks = lex(text)
+        sg = sig(toks)
+        hit = None
+        for p in range(len(sg) - 6):
+            if (toks[sg[p]].text == "." and toks[sg[p + 1]].text == "iter" and toks[sg[p + 2]].text == "(" and toks[sg[p + 3]].text == ")"
+                    and toks[sg[p + 4]].text == "." and toks[sg[p + 5]].text == "any" and toks[sg[p + 6]].text == "("):
+                hit = p
+                break
+        if hit is None:
+            break
+        p = hit
+        st = chain_start(toks, sg, p)
+        recv = text[toks[sg[st]].s:toks[sg[p - 1]].e]
+        c = match_close(toks, sg[p + 6])
+        arg = text[toks[sg[p + 6]].e:toks[c].s]
+        text = text[:toks[sg[st]].s] + f"iter_any({recv}, {arg.strip()})" + text[toks[c].e:]
+        n += 1
+    bump(log, "R14 X.iter().any(C) -> iter_any(X, C)", n)
+    return text
+
+
 def r_miette(text, log):
     """R7m: `miette!(..)` (error report construction) -> prelude::opaque_report()"""
     toks = lex(text)
@@ -476,7 +580,7 @@ def r_miette(text, log):
     return apply_edits(text, edits)
 
 
-GENERIC_RULES = [r_miette, r_attrs, r_tracing, r_let_chains, r_enumerate, r_closure_params, r_bool_or_assign]
+GENERIC_RULES = [r_miette, r_split, r_iter_any, r_attrs, r_tracing, r_let_chains, r_enumerate, r_closure_params, r_bool_or_assign]
 
 
 def r_pub_fields(text, log):
@@ -712,6 +816,14 @@ class Gen:
         if kind == "struct":
             text = r_pub_fields(text, log)
         text = self.local_subs(text, d, log)
+        if kind == "const":
+            # R15: `const N: T = E;` -> `exec const N: T <contract> { E }` (Verus consts are dual-mode unless marked exec)
+            spec = "\n".join("\n".join(lines) for k_, a_, lines in getattr(d, "subs", []) if k_ == "spec:")
+            m = re.match(r"(?s)(.*?)\bconst\s+(\w+)\s*:\s*(.*?)\s*=\s*(.*);\s*$", text.strip())
+            if not m:
+                raise WbxError(f"R15: cannot parse const item {name}")
+            text = f"{m.group(1)}exec const {m.group(2)}: {m.group(3)}\n{spec}\n{{ {m.group(4)} }}"
+            bump(log, "R15 const -> exec const with contract")
         for k, v in log.items():
             bump(self.meta["rewrites"], k, v)
         g0 = self.lineno()
@@ -815,6 +927,7 @@ class Gen:
             text = rule(text, log)
         text = r_bounds(text, log)
         f = Fn(text)
+        fn_attrs = []
         result = None
         spec = ""
         inserts = []  # (offset, text) relative to `text`
@@ -822,6 +935,9 @@ class Gen:
         for kind, arg, lines in d.subs:
             body = "\n".join(lines)
             if kind in ("sub", "closure", "props"):
+                continue
+            if kind == "attr":
+                fn_attrs.append(arg)
                 continue
             if kind == "result":
                 result = arg
@@ -879,6 +995,8 @@ class Gen:
             edits.append((sig_end, sig_end, "\n" + spec + "\n    "))
             for off, t in inserts:
                 edits.append((off, off, t))
+            if fn_attrs:
+                edits.append((f.attr_end, f.attr_end, "\n".join(fn_attrs) + "\n    "))
         final = apply_edits(text, edits)
         g0 = self.lineno()
         self.emit(final.strip("\n"))
@@ -930,9 +1048,14 @@ class Gen:
             raise WbxError(f"bad closure directive `{arg}`")
         anchor, params, ret = m.groups()
         hits = find_tokens(text, anchor, "closure")
-        if len(hits) != 1:
-            raise WbxError(f"lost anchor: closure `{anchor}` occurs {len(hits)}x in fn {fname}")
-        s0, e0 = hits[0]
+        if not hits:
+            raise WbxError(f"lost anchor: closure `{anchor}` not found in fn {fname}")
+        if len(hits) > 1:
+            # apply to every occurrence, last first (offsets stay valid)
+            for _ in range(len(hits) - 1):
+                pass
+        s0, e0 = hits[-1]
+        rest_hits = hits[:-1]
         toks = lex(text)
         sg = sig(toks)
         # body: from the first significant token after the params to the enclosing `)` / `,` at depth 0
@@ -952,7 +1075,12 @@ class Gen:
             q += 1
         bs, be = toks[sg[b]].s, toks[sg[q - 1]].e
         bump(log, "R13 closure parameter types annotated + closure contract attached")
-        return text[:s0] + params + " -> " + ret + "\n" + spec + "\n            { " + text[bs:be] + " }" + text[be:]
+        new = text[:s0] + params + " -> " + ret + "\n" + spec + "\n            { " + text[bs:be] + " }" + text[be:]
+        if rest_hits:
+            # remaining (earlier) occurrences: recurse on the prefix only
+            head = self.closure_contract(text[:s0], fname, arg, spec, log)
+            new = head + new[s0:]
+        return new
 
     def do_slice(self, d):
         """R6: one statement of a function as a function of its own"""
